@@ -56,7 +56,19 @@ def unmap_rules(fb, chk):
         for c in fb.crates:
             adt = adt or c.adts.get(d.impl_self)
         names = [f['name'] for f in adt['variants'][0]['fields']] if adt else []
-        if ptr_f not in names or len_f not in names:
+
+        def by_path(eng_, v, dotted):
+            """the value at a dotted field path of a struct value (through nested private structs)"""
+            for part in dotted.split('.'):
+                if v is None or v[0] != 'agg':
+                    return None
+                a_ = eng_.find_adt(v[1])
+                nms = [f['name'] for f in a_['variants'][0]['fields']] if a_ and a_.get('variants') else []
+                if part not in nms or len(nms) != len(v[3]):
+                    return None
+                v = v[3][nms.index(part)]
+            return v
+        if ptr_f.split('.')[0] not in names or len_f.split('.')[0] not in names:
             continue
         # every place such a value is built: the public constructors of the crate, explored with their helpers inlined
         from .startup_model import is_reader_new, init_reader_open
@@ -68,8 +80,10 @@ def unmap_rules(fb, chk):
                 if not (q.kind == 'return' and q.value[0] == 'agg' and q.value[2] == 'Ok'):
                     continue
                 for g in _find_aggs(q.value, d.impl_self, []):
-                    vals = dict(zip(names, g[3]))
-                    pv, lv = arith.strip_casts(vals[ptr_f]), arith.strip_casts(vals[len_f])
+                    pv0, lv0 = by_path(eng, g, ptr_f), by_path(eng, g, len_f)
+                    if pv0 is None or lv0 is None:
+                        continue
+                    pv, lv = arith.strip_casts(pv0), arith.strip_casts(lv0)
                     maps = [(n, ef) for n, ef in enumerate(q.effects) if ef['kind'] == 'call' and is_map(ef['callee'])]
                     mine = [(n, ef) for n, ef in maps if any(y[0] == 't' and y[1] == 'call' and y[2][1] == n for y in psi.walk(pv))]
                     ok_ptr = len(mine) == 1
